@@ -1219,7 +1219,7 @@ def shift_targets(facts):
 
 
 def check_shifts(ctx, res):
-    run_targets(ctx, res, shift_targets, "R5-shift", 70, "R5: the 72 BigInt shift leaves keep the sign, shift the magnitude, add the rounding increment to negative right shifts and leave a canonical value (zero result -> NoSign)")
+    run_targets(ctx, res, shift_targets, "R5-shift", 24, "R5: the BigInt shift leaves (72 on the pinned tree; at least the 24 assigning forms must remain leaves when the others forward to them) keep the sign, shift the magnitude, add the rounding increment to negative right shifts and leave a canonical value (zero result -> NoSign)")
 
 
 # ------------------------------------------------------------------------------------------
